@@ -314,6 +314,8 @@ pub enum Overlay {
     ClockMax,
     NumberMax,
     BothMax,
+    /// move numbers around digit-count and integer-width boundaries (for numbering)
+    NumberMid,
 }
 
 impl Overlay {
@@ -325,6 +327,7 @@ impl Overlay {
             Overlay::ClockMax => "clock-65533..65535",
             Overlay::NumberMax => "number-65534..65535",
             Overlay::BothMax => "both-counters-max",
+            Overlay::NumberMid => "number-99..32768",
         }
     }
 }
@@ -340,6 +343,9 @@ pub fn apply_overlay(b: &Board, ov: Overlay, rng: &mut Rng) -> Board {
         Overlay::BothMax => {
             p.clock = 65533 + rng.below(3) as u16;
             p.number = 65534 + rng.below(2) as u16;
+        }
+        Overlay::NumberMid => {
+            p.number = [0u16, 9, 99, 127, 128, 255, 256, 999, 1000, 9999, 32767, 32768][rng.below(12)];
         }
     }
     admit(&p).unwrap_or_else(|| b.clone())
